@@ -1,19 +1,81 @@
 """The plan: which harness targets decide which property, and with how many cases.
 
 quick    = fixed work you would run on every change (seconds to a minute on 16 cores)
-thorough = 20-50x deeper, larger structures (ctx.tier = 1)
+thorough = much deeper, larger structures (ctx.tier = 1, longer cases)
+
+`param` is handed to the target as ctx.param; shared interpreters use it to select the
+oracle of the property being checked, so a violation is always attributed to the property
+whose statement it contradicts.
 """
 
-def item(bin, target, quick, thorough, param=0):
-    return {"bin": bin, "target": target, "quick": quick, "thorough": thorough, "param": param}
+
+def item(bin, target, quick, thorough, param=0, max_len=None):
+    d = {"bin": bin, "target": target, "quick": quick, "thorough": thorough, "param": param}
+    if max_len:
+        d["max_len"] = max_len  # (quick, thorough) maximum case length in bytes
+    return d
+
 
 PLAN = {
-    "C01": [item("h_stream", "c01_ans", 480_000, 24_000_000)],
+    "C01": [item("h_stream", "c01_ans", 3_200_000, 96_000_000, max_len=(1024, 4096))],
+    "C02": [item("h_stream", "range_msg", 2_400_000, 64_000_000, param=2, max_len=(1024, 16384))],
+    "C04": [item("h_stream", "c04_bitsback", 3_200_000, 96_000_000, max_len=(1024, 8192))],
+    "C06": [
+        item("h_stream", "ans_msg", 1_600_000, 48_000_000, param=6, max_len=(1024, 16384)),
+        item("h_stream", "range_msg", 1_600_000, 48_000_000, param=6, max_len=(1024, 16384)),
+    ],
+    "C11": [item("h_stream", "c11_suffix", 1_600_000, 64_000_000, max_len=(2048, 2048))],
+    "C12": [
+        item("h_stream", "ans_msg", 1_600_000, 32_000_000, param=12, max_len=(1024, 16384)),
+        item("h_stream", "range_msg", 1_600_000, 32_000_000, param=12, max_len=(1024, 16384)),
+    ],
 }
 
+GRID = ("configuration grid (Word/State: precisions): u8/u16: 1,3,8; u8/u32: 1,5,8; u8/u64: 8,4; u16/u32: 7,12,16; "
+        "u16/u64: 8,16,11; u32/u64: 8,12,16,24,32; u32/u128: 32,9; u64/u128: 24,2; models are harness cumulative "
+        "tables with 2..8 symbols incl. 1-quantum and (2^P-1)-quantum symbols, precision changing per symbol")
+
 RULES = {
-    "C01": "case = byte string decoded into (config row, start state, <=60 ops (quick) / <=200 (thorough) from "
-           "{encode, decode, 6 batch-encode forms, 3 batch-decode forms, 3 re-imports, 8 read-only decoder views, clone}) "
-           "with harness table models whose precision varies per symbol; non-trivial = at least one push popped again "
-           "after a word was flushed to bulk or after a re-import; distinct = distinct canonical hash of the decoded choices",
+    "C01": "case = byte string decoded into (config row, start state {new, from_compressed(words), from_binary(words)}, "
+           "<=60 ops (quick) / <=200 (thorough) from {encode, decode, 6 batch-encode forms with injected iterator errors, "
+           "3 batch-decode forms, 3 re-imports, 8 read-only decoder views over other backends, clone}); " + GRID +
+           "; non-trivial = at least one push popped again after a word was flushed to bulk or after a re-import; "
+           "distinct = distinct canonical hash of the decoded choices",
+    "C02": "case = (config row, encoder constructor, message of <=80 (quick) / <=2000 (thorough) symbols with per-symbol "
+           "table, one of 8 decoder constructions); " + GRID + "; non-trivial = message with >=1 renormalisation "
+           "(word emitted or held back); labels count inverted situations, carries resolved up/down, seals while inverted",
+    "C04": "case = (config row, word data 0..24 words (quick) / 0..200 (thorough) from a mixture incl. all-zero, all-ones, "
+           "trailing zero words, number of decodes 0..40 / 0..400 with arbitrary tables, optional interleaved push/pop, "
+           "alternative constructor/backend); " + GRID + "; non-trivial = >=1 symbol decoded and >=1 refill from bulk",
+    "C06": "case = (config row, message of <=80 / <=2000 symbols with per-symbol table); ANS: export compared with the "
+           "reference rANS coder after every prefix and after popping a generated part of the message again; range coder: "
+           "sealed stream compared with the carry-propagating reference at a generated prefix and at the end; plus golden "
+           "vectors from the project's documentation in the replay tier; " + GRID +
+           "; non-trivial = >=1 flushed word (ANS) / >=1 renormalisation (range)",
+    "C11": "case = up to 48 short messages per case (0..6 random symbols + a final symbol that is steered, with probability 3/4, "
+           "from the encoder's public state() so that range lands just above 2^(S-W) and lower just above a word boundary), each "
+           "followed by a suffix from {all-ones words, zeros, random words, a second sealed message written with with_backend(existing)}; "
+           + GRID + "; non-trivial = case containing a message whose seal needs its zero word(s) (top words of upper and point coincide); "
+           "label deep_region counts final states in which one zero word is not enough (State wider than two Words)",
+    "C12": "case = (config row, message of <=80 / <=2000 symbols), bound W*num_words <= sum(I_i + log2(1+2^-(S-W-P_i))) + S + 2W "
+           "and num_words <= n + S/W + 2 checked at every prefix for both coders (float slack 1e-9*n + 1e-6 bits); " + GRID +
+           "; non-trivial = >=1 flushed word / renormalisation",
+}
+
+LEVEL_TEXT = {
+    "C01": "stateful property-based search over ANS operation histories against a stack-of-pending-pushes model and recorded exports",
+    "C02": "property-based round-trip search over range-coder messages (all carry situations reached thousands of times per run)",
+    "C04": "property-based decode-then-re-encode search on arbitrary raw binary data through five constructors",
+    "C06": "differential search against independent reference rANS and carry-propagating range coders, plus golden vectors from the documentation",
+    "C11": "property-based search with a state-steered generator over sealed messages followed by adversarial suffixes",
+    "C12": "property-based search checking the analytic size bound at every prefix of generated messages",
+}
+
+TECHNIQUE = {
+    "C01": "stateful property-based testing (generated operation histories vs reference stack model), byte-level shrinking to a replay file",
+    "C02": "property-based round-trip testing over generated messages and decoder constructions",
+    "C04": "property-based inverse round-trip (decode then re-encode) on generated raw data, differential across backends",
+    "C06": "differential property-based testing against reference coders + golden-vector replay",
+    "C11": "property-based testing with state-feedback (steered) generation; oracle = decode(sealed ++ suffix) == message",
+    "C12": "property-based testing of an analytic invariant over every prefix of generated messages",
 }
